@@ -2,6 +2,7 @@ package rules
 
 import (
 	"fmt"
+	"go/constant"
 	"go/token"
 	"go/types"
 	"sort"
@@ -253,6 +254,9 @@ func R7PathContain(c *Ctx) {
 				if !ok {
 					continue
 				}
+				if normalisedBase(base) {
+					continue // not a containment test: see normalisedBase
+				}
 				tests = append(tests, &containTest{call: call, x: x, clean: cl, base: base, sepOK: endsWithSep(base)})
 			}
 		}
@@ -480,6 +484,141 @@ func R7FileID(c *Ctx) {
 					c.R.Ok(rule, FuncShort(fn), construct, c.pos(call.Pos()), "dominated by the FileID == parameter edge on the same element", true)
 				} else {
 					c.R.Bad(rule, FuncShort(fn), construct, c.pos(call.Pos()), "file handle of a download is written/closed without a dominating `FileID == <parameter>` test on the same element: chunks for another or unknown id would be written")
+				}
+			}
+		}
+	}
+}
+
+// normalisedBase: the base of a prefix test contains filepath.Clean/Join/Abs applied to a string that
+// includes a parameter-derived component (not reduced by filepath.Base). Normalising after the untrusted
+// component was appended folds its ".." into the base, so "Clean(p) has prefix base" compares the path with
+// itself and vouches for nothing.
+func normalisedBase(base ssa.Value) bool {
+	for _, leaf := range ConcatLeaves(base) {
+		call, ok := leaf.(*ssa.Call)
+		if !ok {
+			continue
+		}
+		switch CalleeName(call) {
+		case "path/filepath.Clean", "path/filepath.Join", "path/filepath.Abs", "path.Clean", "path.Join":
+		default:
+			continue
+		}
+		for _, a := range call.Call.Args {
+			var leaves []ssa.Value
+			if sl, ok := a.(*ssa.Slice); ok { // variadic Join
+				if al, ok := sl.X.(*ssa.Alloc); ok {
+					for _, r := range *al.Referrers() {
+						if ia, ok := r.(*ssa.IndexAddr); ok {
+							for _, r2 := range *ia.Referrers() {
+								if st, ok := r2.(*ssa.Store); ok && st.Addr == ssa.Value(ia) {
+									leaves = append(leaves, ConcatLeaves(st.Val)...)
+								}
+							}
+						}
+					}
+				}
+			} else {
+				leaves = ConcatLeaves(a)
+			}
+			untrusted, dir := false, false
+			for _, l := range leaves {
+				if c2, ok := l.(*ssa.Call); ok && (CalleeName(c2) == "path/filepath.Base" || CalleeName(c2) == "path.Base") {
+					continue
+				}
+				if ParamOf(l) != nil {
+					untrusted = true
+					continue
+				}
+				if s, ok := ConstString(l); ok && strings.Trim(s, "/\\") == "" {
+					continue // a bare separator
+				}
+				dir = true
+			}
+			// normalising the component alone keeps a leading ".." visible in the base; normalising
+			// directory + component together hides it
+			if untrusted && dir {
+				return true
+			}
+		}
+	}
+	return false
+}
+
+// R7LootHandle — a download's file starts empty and only the named download is written.
+func R7LootHandle(c *Ctx) {
+	const rule = "R7-loot-handle"
+	c.R.Rule(rule, "the handle stored into Download.File is opened truncating (os.Create, or os.OpenFile with O_TRUNC or O_EXCL and without O_APPEND): what is on disk afterwards is what this transfer sent, not appended to an earlier file; and the file id handed to DownloadWrite / DownloadClose / DownloadGet comes from the callback being processed, never from the download table itself (a chunk for an unknown or closed id is not redirected into another transfer)", 4)
+	flagConst := func(name string) (int64, bool) {
+		for _, pk := range c.P.SSA.AllPackages() {
+			if pk.Pkg.Path() != "os" {
+				continue
+			}
+			if cn, ok := pk.Pkg.Scope().Lookup(name).(*types.Const); ok {
+				v, ok := constant.Int64Val(constant.ToInt(cn.Val()))
+				return v, ok
+			}
+		}
+		return 0, false
+	}
+	oTrunc, ok1 := flagConst("O_TRUNC")
+	oExcl, ok2 := flagConst("O_EXCL")
+	oAppend, ok3 := flagConst("O_APPEND")
+	if !ok1 || !ok2 || !ok3 {
+		c.R.Anchor(rule, "os.O_TRUNC / O_EXCL / O_APPEND")
+		return
+	}
+	for _, fn := range c.P.ModuleFuncs(func(p string) bool { return p == PkgAgent }) {
+		for _, b := range fn.Blocks {
+			for _, in := range b.Instrs {
+				switch x := in.(type) {
+				case *ssa.Store:
+					t, f, _, ok := FieldOf(x.Addr)
+					if !ok || t != PkgAgent+".Download" || f != "File" {
+						continue
+					}
+					v := x.Val
+					if ex, ok := v.(*ssa.Extract); ok {
+						v = ex.Tuple
+					}
+					call, ok := v.(*ssa.Call)
+					if !ok {
+						if k, isC := x.Val.(*ssa.Const); isC && k.IsNil() {
+							continue
+						}
+						c.R.Bad(rule, FuncShort(fn), "Download.File = <truncating open>", c.pos(x.Pos()), "the download's file handle does not come directly from an open call")
+						continue
+					}
+					construct := "Download.File = <truncating open>"
+					switch CalleeName(call) {
+					case "os.Create":
+						c.R.Ok(rule, FuncShort(fn), construct, c.pos(x.Pos()), "os.Create truncates", true)
+					case "os.OpenFile":
+						fl, isC := ConstInt(call.Call.Args[1])
+						if isC && (fl&oTrunc != 0 || fl&oExcl != 0) && fl&oAppend == 0 {
+							c.R.Ok(rule, FuncShort(fn), construct, c.pos(x.Pos()), "OpenFile with O_TRUNC/O_EXCL", true)
+						} else {
+							c.R.Bad(rule, FuncShort(fn), construct, c.pos(x.Pos()), "the loot file is opened without truncation (or for append): a second transfer of the same remote path is written behind the bytes of the first, so the file on disk is not what was sent")
+						}
+					default:
+						c.R.Bad(rule, FuncShort(fn), construct, c.pos(x.Pos()), "the loot file handle comes from "+CalleeName(call))
+					}
+				case ssa.CallInstruction:
+					name := CalleeName(x)
+					if name != "(*Havoc/pkg/agent.Agent).DownloadWrite" && name != "(*Havoc/pkg/agent.Agent).DownloadClose" && name != "(*Havoc/pkg/agent.Agent).DownloadGet" {
+						continue
+					}
+					args := CallArgs(x)
+					if len(args) == 0 {
+						continue
+					}
+					construct := shortCallee(name) + "(id from the callback)"
+					if DerivesFrom(args[0], IsFieldLoad(PkgAgent+".Download", "FileID")) || DerivesFrom(args[0], IsFieldLoad(PkgAgent+".Agent", "Downloads")) {
+						c.R.Bad(rule, FuncShort(fn), construct, c.pos(x.Pos()), "the file id is taken from the agent's download table instead of the callback: data for an unknown or closed id is written into whatever transfer is open")
+					} else {
+						c.R.Ok(rule, FuncShort(fn), construct, c.pos(x.Pos()), "the id does not come from the download table", true)
+					}
 				}
 			}
 		}
